@@ -57,7 +57,7 @@ def gen_cases(tier, seed):
             cases.append({"family": "bm", "name": name, "bm": None, "seed": stable_hash(seed, "C06", "bm", name, i), "rs": ["int", "instance"][i % 2]})
     for name in list(models.CLASSIFIERS) + ["sk_unfitted"]:
         for i in range(reps):
-            cases.append({"family": "clf", "name": name, "seed": stable_hash(seed, "C06", "clf", name, i)})
+            cases.append({"family": "clf", "name": name, "seed": stable_hash(seed, "C06", "clf", name, i), "cold": bool(i % 2)})
     for name in models.PROBABILISTIC_REGRESSORS:
         for i in range(reps):
             cases.append({"family": "reg", "name": name, "seed": stable_hash(seed, "C06", "reg", name, i)})
@@ -234,6 +234,8 @@ def run_case(desc):
             factory = lambda: f([0, 1, 2], np.nan, None, 7)
         y = rng.randint(0, K, size=n).astype(float)
         y[rng.rand(n) < 0.4] = np.nan
+        if desc.get("cold"):
+            y[:] = np.nan       # nothing labelled: every prediction is a tie that only the generator decides
         if name == "sk_unfitted":
             y[:] = np.nan
             y[0] = 1.0          # a single class: SVC cannot be fitted -> documented random fallback
